@@ -221,3 +221,31 @@ Definition append_comment (r : N) (d : str) (cs : list comment) : list comment :
 
 Definition at_row (v : violation) (r : N) : bool :=
   match v_row v with Some r' => r' =? r | None => false end.
+
+(* ---------- the module text as lines (arguments of the parser / rule oracles) ---------- *)
+
+Definition HASH : N := 35.
+
+(* the line [l] becomes row r; rows are 1-based *)
+Definition insert_line (r : N) (l : str) (ls : list str) : list str :=
+  firstn (N.to_nat (r - 1)) ls ++ l :: skipn (N.to_nat (r - 1)) ls.
+
+(* [suffix] is appended to the line on row r *)
+Definition append_to_line (r : N) (suffix : str) (ls : list str) : list str :=
+  firstn (N.to_nat (r - 1)) ls ++
+  match skipn (N.to_nat (r - 1)) ls with
+  | x :: tl => (x ++ suffix) :: tl
+  | [] => []
+  end.
+
+Definition is_indent (s : str) : Prop := Forall (fun c => c = 32 \/ c = 9) s.
+
+(* ---------- two-phase use: exported directives of several runs, merged by the caller ---------- *)
+
+(* for every run's Report.IgnoreDirectives: dirs[file] = directives *)
+Definition merge_exported (exports : list gomap) : gomap :=
+  fold_left (fun g e => fold_left (fun g fo => gm_set g (fst fo) (snd fo)) e g) exports [].
+
+(* what one Lint run over [files] (name, comments) hands to / exports for the aggregate report *)
+Definition file_results (files : list (str * list comment)) : list (str * dirmap) :=
+  map (fun fc => (fst fc, directive_entries (snd fc))) files.
